@@ -918,6 +918,15 @@ func runEpisode(t *rapid.T, w *world, label string, hk *hook) epResult {
 					if n.static(s.Height, tH) && rf.adjacentConsistent(n.view, s, rec.lb, c.now) {
 						backers = append(backers, rec.prov)
 					}
+					if !n.static(s.Height, tH) && !n.raw && !n.hostileLayout && len(n.firstAnswer) == 0 && !isAttack && rf.adjacentConsistent(n.view, s, rec.lb, c.now) {
+						// the witness showed a conflicting header and HOLDS a chain that proves it, but one of its follow-up answers
+						// was lost (planned fault / it went silent): by the detection spec it "cannot provide a verification trace"
+						// and is replaced; nothing is asserted, only counted
+						cls.add("observation:conflicting-witness-with-a-proving-chain-failed-examination(dropped)")
+						if _, ok := stored[tH]; ok && before[tH] == nil {
+							cls.add("observation:...and-the-header-was-stored-on-another-witness-match")
+						}
+					}
 				}
 				// forward conflict: a witness that does not have the target height yet answered with its head block, and
 				// that head is NOT EARLIER in time than the primary's header although it is lower: block time grows with
